@@ -8,18 +8,22 @@ Record vobs := mk_vobs {
   ob_iter : list (string * tvalue);         (* iter() *)
   ob_back : list (string * tvalue);         (* iter().rev() *)
   ob_into : list (string * tvalue);         (* clone().into_iter() *)
-  ob_gets : list (option tvalue) }.         (* get(name) for every probe name *)
+  ob_gets : list (option tvalue);           (* get(name) for every probe name *)
+  ob_empty : bool;                          (* is_empty() *)
+  ob_index : list (option tvalue) }.        (* values[name] for every probe name; None = panicked *)
 
 Definition kvs_eqb := list_eqb (pair_eqb String.eqb tvalue_eqb).
 Definition vobs_eqb (a b : vobs) : bool :=
   option_eqb tvalue_eqb (ob_ret a) (ob_ret b) && N.eqb (ob_len a) (ob_len b)
   && N.eqb (ob_itlen a) (ob_itlen b) && kvs_eqb (ob_iter a) (ob_iter b)
   && kvs_eqb (ob_back a) (ob_back b) && kvs_eqb (ob_into a) (ob_into b)
-  && list_eqb (option_eqb tvalue_eqb) (ob_gets a) (ob_gets b).
+  && list_eqb (option_eqb tvalue_eqb) (ob_gets a) (ob_gets b)
+  && Bool.eqb (ob_empty a) (ob_empty b)
+  && list_eqb (option_eqb tvalue_eqb) (ob_index a) (ob_index b).
 
 Definition observe (probe : list string) (ret : option tvalue) (m : tvalues) : vobs :=
   mk_vobs ret (len m) (N.of_nat (List.length (iter m))) (iter m) (iter_back m) (into_iter m)
-          (map (get m) probe).
+          (map (get m) probe) (is_empty m) (map (index m) probe).
 
 (** the model's observations after every operation *)
 Fixpoint model_obs (probe : list string) (m : tvalues) (ops : list vop) : list vobs :=
@@ -32,7 +36,8 @@ Fixpoint model_obs (probe : list string) (m : tvalues) (ops : list vop) : list v
 Definition spec_observe (probe : list string) (ret : option tvalue) (h : list (string * tvalue)) : vobs :=
   let d := denote h in
   mk_vobs ret (N.of_nat (List.length (keys_of h))) (N.of_nat (List.length (keys_of h)))
-          d (rev d) d (map (last_val h) probe).
+          d (rev d) d (map (last_val h) probe)
+          (match keys_of h with [] => true | _ => false end) (map (last_val h) probe).
 
 Fixpoint spec_obs (probe : list string) (h : list (string * tvalue)) (ops : list vop) : list vobs :=
   match ops with
@@ -62,6 +67,15 @@ Definition conv_ok (v : tvalue) (x : tconst) (impl_vc impl_cv : bool) (impl_as :
                                    | TU128, TU128 | TF64, TF64 | TStr, TStr => true
                                    | _, _ => false end
      | None => true end.
+
+(** the Debug-object accessors: [as_debug_str()], [is_debug(obj)] for an object rendering to [r] *)
+Definition judge_debug (v : tvalue) (r : string) (impl_str : option string) (impl_is : bool) : verdict :=
+  judge_of true
+    (option_eqb String.eqb (as_debug_str v) impl_str && Bool.eqb (is_debug v r) impl_is)
+    (match v with
+     | VObj s => option_eqb String.eqb impl_str (Some s) && Bool.eqb impl_is (String.eqb s r)
+     | _ => option_eqb String.eqb impl_str None && negb impl_is
+     end).
 
 Definition judge_conv (v : tvalue) (x : tconst) (impl_vc impl_cv : bool) (impl_as : option tconst)
   : verdict :=
